@@ -42,6 +42,7 @@ RULE = (
     "ckpt:load_checkpoint}); contexts are seeded (incl. duplicated rows, a zero row, rows on the Box boundary), masks "
     "incl. all-but-one masked. Non-trivial = the inverse comparison was evaluated after >= 5 decisions of the case "
     "with a non-zero accumulated Gram term; distinct = distinct case descriptions"
+    " Added: every fourth random sequence uses lambda in {0.01, 0.02, 0.05, 0.1, 0.2, 10}; directed sequences with 130+ decisions after clone / load / load_checkpoint"
 )
 ASSUMPTIONS = [
     "CPU, float32 agents; the reference is float64",
